@@ -227,6 +227,7 @@ package main
 //@   ensures err == nil ==> claimsAuthJWT(intoken).Issuer == state.idpGetIssuer() && len(claimsAuthJWT(intoken).Audience) >= 1 && claimsAuthJWT(intoken).Audience[0] == state.idpGetIssuer()  #C04.update-issuer-audience @C04
 //@   ensures err == nil ==> claimsAuthJWT(intoken).TokenType == "keymaster_auth"                           #C04.update-kind @C04
 //@   ensures err == nil ==> claimsAuthJWT(intoken).NotBefore <= nowNanos() / 1000000000                    #C04.update-nbf @C04
+//@   ensures err == nil ==> claimsAuthJWT(intoken).Subject == username                                     #C05.update-subject @C05
 
 // ---- C05: a session gains a factor only when its own user proves that factor ---------------------------------
 // factor bits verified for the authenticated user since the last credential check of this request
@@ -236,9 +237,10 @@ package main
 //@ func (*RuntimeState).updateAuthCookieAuthlevel
 //@   results oldtok, err
 //@   requires ghostAuthed                                                                                 #C05.authed @C05
+//@   requires username == ghostAuthUser                                                                   #C05.session-user @C05
 //@   requires (authlevel &^ ghostAuthLevel) &^ ghostVerifiedBits == 0                                     #C05.own-factor @C05
 //@   ensures err == nil ==> verifiedByKeymaster(state, oldtok) && claimsAuthJWT(oldtok).TokenType == "keymaster_auth"  #C05.upgrades-valid-cookie @C05,C04
-//@   ensures err == nil ==> claimsAuthJWT(oldtok).Subject == ghostAuthUser                                  #C05.own-session @C05
+//@   ensures err == nil ==> claimsAuthJWT(oldtok).Subject == username                                       #C05.own-session @C05
 
 //@ func (*RuntimeState).commonTOTPPostHandler
 //@   ensures ret3 == nil ==> ghostAuthed && ret0 == ghostAuthUser && ret1 == ghostAuthLevel && ghostVerifiedBits == 0  #C05.common-identity @C05
